@@ -7,7 +7,9 @@ the returned Series / DataFrames are exported as exact scaled integers and compa
 vectorised model (correspondence, tags 1-9) and with the reference walk / frame properties (oracle,
 tags 11-31)."""
 import json
+import os
 import random
+import sys
 from fractions import Fraction as F
 
 from harness.lib import coqterm as ct
@@ -53,12 +55,12 @@ ORACLE = {
     29: (4, []),
     16: (5, [(213, 'C14-TAD-RESET-NEGATIVE')]),
     17: (5, []),
-    18: (5, [(201, 'C14-ID-LITERAL'), (216, 'C14-EXPAND-EXPLICIT-INDEX'), (217, 'C14-TAD-ADDL-WITHOUT-II'),
-             (211, 'C14-TAD-REORDER'), (214, 'C14-TAD-REORDER')]),
+    18: (5, [(201, 'C14-ID-LITERAL'), (216, 'C14-EXPAND-EXPLICIT-INDEX'),
+             (211, 'C14-TAD-REORDER-ID'), (214, 'C14-TAD-REORDER-TIE')]),
     19: (5, [(215, 'C14-TAD-ID-DTYPE')]),
     28: (5, [(201, 'C14-ID-LITERAL'), (205, 'C14-DOSEID-RESET-GROUP'), (206, 'C14-DOSEID-OBS-BETWEEN-DOSES'),
              (207, 'C14-DOSEID-FIRST-DOSE'), (203, 'C14-DOSEID-FIRST-DOSE'),
-             (211, 'C14-TAD-REORDER'), (214, 'C14-TAD-REORDER'), (213, 'C14-TAD-RESET-NEGATIVE')]),
+             (211, 'C14-TAD-REORDER-ID'), (214, 'C14-TAD-REORDER-TIE'), (213, 'C14-TAD-RESET-NEGATIVE')]),
     20: (6, [(209, 'C14-SQUEEZE-SINGLE')]),
     21: (6, [(210, 'C14-SQUEEZE-SINGLE')]),
     22: (6, [(209, 'C14-SQUEEZE-SINGLE')]),
@@ -69,7 +71,7 @@ ORACLE = {
     27: (0, []),
 }
 # input-domain guards (not defects): an oracle failure is also excused when one of these is false
-DOMAIN = {13: [204], 14: [204], 18: [204], 28: [204, 203], 16: [204]}
+DOMAIN = {13: [204], 14: [204], 18: [204, 217], 28: [204, 203], 16: [204]}
 
 FIELD_OF_TYPE = {'id': 'id', 'idv': 'time', 'dose': 'amt', 'dv': 'dv', 'event': 'evid', 'mdv': 'mdv',
                  'compartment': 'cmt', 'admid': 'admid', 'ss': 'ss', 'additional': 'addl', 'ii': 'ii'}
@@ -82,19 +84,28 @@ class Unconvertible(Exception):
 
 
 # ------------------------------------------------------------------ generator
-def gen_spec(rng):
+def gen_spec(rng, clean=None):
+    """clean: datasets inside every guard (ascending ids named ID, default index, chronological, no tie
+    with a first dose, no observation between tied doses, resets without a restart of time, MDV consistent
+    with AMT, at least two observations / doses, a covariate) — there the walk oracle must hold exactly.
+    wild: everything else as well."""
+    if clean is None:
+        clean = rng.random() < 0.4
     kind = rng.choice(['iv', 'iv', 'oral', 'ivoral', 'ivoral'])
     use_evid = rng.random() < 0.5
     use_mdv = rng.random() < 0.45
     use_cmt = rng.random() < 0.3
     use_ss = rng.random() < 0.3
     use_addl = rng.random() < 0.4
-    use_ii = use_addl and rng.random() < 0.96
+    use_ii = use_addl and (clean or rng.random() < 0.96)
     use_rate = rng.random() < 0.2
     use_admid = rng.random() < 0.12
-    has_dose = rng.random() < 0.97
-    ncov = rng.choice([0, 0, 1, 2])
-    idname = 'ID' if rng.random() < 0.93 else 'SUBJ'
+    has_dose = clean or rng.random() < 0.97
+    use_admid = use_admid and has_dose      # ADMID without any of MDV/EVID/AMT: get_mdv's fresh index, not modelled
+    if clean and use_admid and kind == 'oral':
+        kind = 'ivoral'
+    ncov = rng.choice([1, 2]) if clean else rng.choice([0, 0, 1, 2])
+    idname = 'ID' if clean or rng.random() < 0.93 else 'SUBJ'
     cols = [[idname, 'id'], ['TIME', 'idv']]
     if use_evid:
         cols.append(['EVID', 'event'])
@@ -121,31 +132,52 @@ def gen_spec(rng):
     nind = rng.choice([1, 1, 2, 2, 2, 3, 3, 4, 5, 6])
     ids = sorted(rng.sample(range(1, 12), nind))
     order = rng.random()
-    if order < 0.12:
-        rng.shuffle(ids)
-    elif order < 0.18:
-        ids = ids[::-1]
+    if not clean:
+        if order < 0.12:
+            rng.shuffle(ids)
+        elif order < 0.18:
+            ids = ids[::-1]
     blocks = []
     for i in ids:
         n = rng.choice([1, 2, 3, 3, 4, 4, 5, 6, 7])
         t = F(rng.choice([0, 0, 0, 1]))
         base_cov = [F(rng.choice([50, 60, 70])), F(rng.choice([20, 30]))]
         recs = []
+        ndoses = 0              # doses so far
+        tie_state = None        # in clean mode: what happened at the current time point: 'first', 'dose', 'dose-obs'
+        first = True
         for _ in range(n):
-            t += F(rng.choice(['0', '0', '0', '1/2', '1', '1', '2', '4', '1/4']))
-            if rng.random() < 0.03 and t >= 1:
-                t -= 1                                  # not chronological
+            dt = F(rng.choice(['0', '0', '0', '1/2', '1', '1', '2', '4', '1/4']))
             kinds = ['dose'] * 7 + ['obs'] * 10
-            if use_mdv or use_evid:
+            if use_evid or (use_mdv and not clean):
                 kinds += ['other']
             if use_evid:
                 kinds += ['reset', 'resetdose']
             k = rng.choice(kinds) if has_dose else rng.choice(['obs', 'obs', 'other'] if (use_mdv or use_evid) else ['obs'])
-            if k in ('reset', 'resetdose') and rng.random() < 0.6:
+            if clean and not first:
+                if k in ('reset', 'resetdose') and dt == 0:
+                    dt = F(1)                            # a reset opens a new time point
+                if dt == 0:
+                    if tie_state == 'first' and k not in ('dose',):
+                        dt = F(1, 2)                     # nothing may follow the first dose at its time point ...
+                    elif tie_state == 'first':
+                        dt = F(1, 2)                     # ... not even another dose (keeps the first dose alone)
+                    elif tie_state == 'dose-obs' and k == 'dose':
+                        dt = F(1, 2)                     # no observation between two tied doses
+            if not first:
+                t += dt
+            first = False
+            if not clean and rng.random() < 0.03 and t >= 1:
+                t -= 1                                  # not chronological
+            if k in ('reset', 'resetdose') and not clean and rng.random() < 0.6:
                 t = F(rng.choice([0, 0, 1]))
+            if dt != 0 or tie_state is None:
+                tie_state = None
             rec = {'id': F(i), 'time': t, 'amt': F(0), 'dv': F(0), 'evid': F(0), 'mdv': F(0), 'cmt': F(rng.choice([1, 2])),
                    'admid': F(rng.choice([1, 2])), 'ss': F(0), 'addl': F(0), 'ii': F(0), 'rate': F(0)}
             if k in ('dose', 'resetdose'):
+                ndoses += 1
+                tie_state = 'first' if ndoses == 1 else 'dose'
                 rec['amt'] = F(rng.choice(['1', '2', '5/2', '10', '100']))
                 rec['evid'] = F(1 if k == 'dose' else 4)
                 rec['mdv'] = F(1)
@@ -158,21 +190,27 @@ def gen_spec(rng):
                     rec['ss'] = F(rng.choice([1, 1, 2]))
                 if rng.random() < 0.3:
                     rec['rate'] = F(rng.choice(['1', '2', '-2']))
-            elif k == 'obs':
-                rec['dv'] = F(rng.randrange(0, 200), 4)
-            elif k == 'other':
-                rec['evid'] = F(2)
-                rec['mdv'] = F(1)
             else:
-                rec['evid'] = F(3)
-                rec['mdv'] = F(1)
+                if tie_state == 'dose':
+                    tie_state = 'dose-obs'
+                if k == 'obs':
+                    rec['dv'] = F(rng.randrange(0, 200), 4)
+                    if use_mdv and (use_evid or not clean) and rng.random() < 0.12:
+                        rec['mdv'] = F(1)               # observation record with a missing DV (MDV=1, EVID=0)
+                        rec['dv'] = F(0)
+                elif k == 'other':
+                    rec['evid'] = F(2)
+                    rec['mdv'] = F(1)
+                else:
+                    rec['evid'] = F(3)
+                    rec['mdv'] = F(1)
             covs = list(base_cov)
             if rng.random() < 0.15:
                 covs[rng.randrange(2)] += F(rng.choice(['1', '1/2']))
             rec['covs'] = covs
             recs.append(rec)
         blocks.append(recs)
-    if len(blocks) >= 2 and rng.random() < 0.06:        # non-contiguous individual
+    if not clean and len(blocks) >= 2 and rng.random() < 0.06:        # non-contiguous individual
         b = rng.randrange(len(blocks))
         if len(blocks[b]) >= 2:
             cut = rng.randrange(1, len(blocks[b]))
@@ -182,6 +220,22 @@ def gen_spec(rng):
     recs = [r for b in blocks for r in b]
     if len(recs) < 2:                                   # single-record frames: get_mdv itself raises (squeeze); not modelled
         recs = recs + [dict(recs[0], time=recs[0]['time'] + 1)]
+    if clean:                                           # at least two observations and two doses (squeeze)
+        last = recs[-1]
+        def extra(kind_, dt_):
+            r = dict(last, time=last['time'] + dt_, amt=F(0), dv=F(0), evid=F(0), mdv=F(0), ss=F(0), addl=F(0), ii=F(0), rate=F(0))
+            if kind_ == 'dose':
+                r.update(amt=F(10), evid=F(1), mdv=F(1))
+            else:
+                r.update(dv=F(7, 2))
+            return r
+        nobs = sum(1 for r in recs if r['amt'] == 0 and r['evid'] == 0 and r['mdv'] == 0)
+        k_ = 1
+        while nobs < 2:
+            recs.append(extra('obs', k_)); nobs += 1; k_ += 1
+        nd = sum(1 for r in recs if r['amt'] != 0)
+        while nd < 2:
+            recs.append(extra('dose', k_)); nd += 1; k_ += 1
     rows = []
     for rec in recs:
         row = []
@@ -197,7 +251,7 @@ def gen_spec(rng):
         rows.append(row)
     n = len(rows)
     ix = rng.random()
-    if ix < 0.84:
+    if clean or ix < 0.84:
         index = None
     elif ix < 0.89:
         index = list(range(n))                          # explicit Index with the default labels
@@ -207,11 +261,35 @@ def gen_spec(rng):
         index = sorted(rng.sample(range(0, 2 * n + 2), n))
     else:
         index = rng.sample(range(0, n + 3), n)
-    return {'kind': kind, 'cols': cols, 'rows': rows, 'index': index, 'scale': 4}
+    return {'kind': kind, 'cols': cols, 'rows': rows, 'index': index, 'scale': 4, 'mode': 'clean' if clean else 'wild'}
 
 
 # ------------------------------------------------------------------ implementation side
 _BASE = {}
+FUNCTIONS = ['add_time_after_dose', 'expand_additional_doses', 'get_admid', 'get_baselines', 'get_cmt', 'get_doseid',
+             'get_doses', 'get_evid', 'get_mdv', 'get_number_of_observations',
+             'get_number_of_observations_per_individual', 'get_observations', 'list_time_varying_covariates']
+_IMPL = []
+
+
+def impl():
+    """pharmpy.modeling.data from /repo — or, for sensitivity experiments only, a scratch copy of that one source
+    file (VERIF_C14_DATA_FILE) loaded under another module name inside the pharmpy.modeling package."""
+    if not _IMPL:
+        path = os.environ.get('VERIF_C14_DATA_FILE')
+        if path:
+            import importlib.util
+            import pharmpy.modeling  # noqa: F401
+            sp = importlib.util.spec_from_file_location('pharmpy.modeling._c14_scratch_copy', path)
+            mod = importlib.util.module_from_spec(sp)
+            sys.modules[sp.name] = mod
+            sp.loader.exec_module(mod)
+            print(f'[C14] NOTE: running the derivations from the scratch copy {path}', flush=True)
+            _IMPL.append(mod)
+        else:
+            import pharmpy.modeling.data as mod
+            _IMPL.append(mod)
+    return _IMPL[0]
 
 
 def base_model(kind):
@@ -327,10 +405,10 @@ def labelled(ex, ser):
 
 def observe(spec):
     import pandas as pd
-    from pharmpy.modeling import (add_time_after_dose, expand_additional_doses, get_admid, get_baselines, get_cmt,
-                                  get_doseid, get_doses, get_evid, get_mdv, get_number_of_observations,
-                                  get_number_of_observations_per_individual, get_observations,
-                                  list_time_varying_covariates)
+    fns = impl()
+    (add_time_after_dose, expand_additional_doses, get_admid, get_baselines, get_cmt, get_doseid, get_doses, get_evid,
+     get_mdv, get_number_of_observations, get_number_of_observations_per_individual, get_observations,
+     list_time_varying_covariates) = [getattr(fns, n) for n in FUNCTIONS]
     model, df0 = build(spec)
     keep = df0.copy(deep=True)
     ex = Exporter(spec)
@@ -441,15 +519,33 @@ def classify(ctx, spec, tags, info, quiet=False):
     return status
 
 
+def _observe_safe(spec):
+    try:
+        return ('ok',) + observe(spec)
+    except Unconvertible as e:
+        return ('unconvertible', str(e), None)
+
+
+def observe_all(specs):
+    """Run the implementation on every spec; in worker processes when there are many (the generation of the
+    specs — the only randomness — stays in the parent; observe is deterministic)."""
+    from harness.lib.core import JOBS
+    if len(specs) < 64 or JOBS <= 1:
+        return [_observe_safe(s) for s in specs]
+    import multiprocessing as mp
+    impl()
+    base_model('iv'), base_model('oral'), base_model('ivoral')          # built once, inherited by the workers
+    with mp.get_context('fork').Pool(min(JOBS, 8)) as pool:
+        return pool.map(_observe_safe, specs, chunksize=16)
+
+
 def run_specs(ctx, specs, label, quiet=False):
     terms, kept, infos = [], [], []
     skipped = 0
-    for spec in specs:
-        try:
-            term, info = observe(spec)
-        except Unconvertible as e:
+    for spec, (st, term, info) in zip(specs, observe_all(specs)):
+        if st != 'ok':
             skipped += 1
-            ctx.coverage.setdefault('unconvertible_examples', []).append(str(e))
+            ctx.coverage.setdefault('unconvertible_examples', []).append(term)
             continue
         terms.append(term)
         kept.append(spec)
@@ -462,13 +558,29 @@ def run_specs(ctx, specs, label, quiet=False):
     return kept, verdicts, infos, stats
 
 
+def small_scope_specs():
+    """Every dataset with 1-4 records over: id in {1,2}, time in {0,1}, dose or observation (thorough tier)."""
+    import itertools
+    cols = [['ID', 'id'], ['TIME', 'idv'], ['AMT', 'dose'], ['DV', 'dv'], ['WGT', 'covariate']]
+    alphabet = [(i, t, k) for i in (1, 2) for t in (0, 1) for k in ('dose', 'obs')]
+    out = []
+    for n in (2, 3, 4):
+        for recs in itertools.product(alphabet, repeat=n):
+            rows = [[str(i), str(t), '10' if k == 'dose' else '0', '0' if k == 'dose' else '3', str(60 + 10 * i)]
+                    for (i, t, k) in recs]
+            out.append({'kind': 'iv', 'cols': cols, 'rows': rows, 'index': None, 'scale': 4, 'mode': 'small-scope'})
+    return out
+
+
 def finding_probes(ctx):
-    """Replay the stored witness of every open finding on the real code."""
-    for f in ctx.findings:
-        if f.get('status') != 'open':
-            continue
-        kept, verdicts, _, _ = run_specs(ctx, [f['witness']], 'finding-' + f['id'], quiet=True)
-        tags = set(verdicts[0]) if verdicts else set()
+    """Replay the stored witness of every open finding on the real code (one Coq run for all of them)."""
+    open_f = [f for f in ctx.findings if f.get('status') == 'open']
+    if not open_f:
+        return
+    kept, verdicts, _, _ = run_specs(ctx, [f['witness'] for f in open_f], 'findings', quiet=True)
+    by_spec = {json.dumps(k, sort_keys=True): v for k, v in zip(kept, verdicts)}
+    for f in open_f:
+        tags = set(by_spec.get(json.dumps(f['witness'], sort_keys=True), []))
         if f['expect_tag'] in tags and not (tags & CORR):
             ctx.known(f['id'])
         else:
@@ -495,13 +607,26 @@ def run(ctx):
         'EVID item follows NM-TRAN (dose 1, other 2, observation 0)',
     ]
     ctx.coverage['source_sha'] = source_sha('src/pharmpy/modeling/data.py', 'src/pharmpy/model/datainfo.py')
+    if os.environ.get('VERIF_C14_DATA_FILE'):
+        ctx.notes.append('SENSITIVITY EXPERIMENT: derivations loaded from ' + os.environ['VERIF_C14_DATA_FILE']
+                         + ' instead of /repo/src/pharmpy/modeling/data.py')
+    if os.environ.get('VERIF_C14_NGEN'):
+        ctx.notes.append('SENSITIVITY EXPERIMENT: number of generated datasets overridden by VERIF_C14_NGEN')
+    ctx.log('build gate done; replaying the witnesses of the open findings')
     finding_probes(ctx)
     reg = sorted((VERIF / 'regress' / 'C14').glob('*.json'))
     specs = [json.loads(p.read_text()) for p in reg]
     specs = [s.get('spec', s) for s in specs]
-    n = 700 if ctx.tier == 'quick' else 12000
+    n = 800 if ctx.tier == 'quick' else 5000
+    n = int(os.environ.get('VERIF_C14_NGEN', n))       # sensitivity experiments only
     specs += [gen_spec(ctx.rng) for _ in range(n)]
+    if ctx.tier == 'thorough' and 'VERIF_C14_NGEN' not in os.environ:
+        small = small_scope_specs()
+        specs += small
+        ctx.coverage['small_scope_datasets'] = len(small)
+    ctx.log(f'running the implementation on {len(specs)} datasets')
     kept, verdicts, infos, stats = run_specs(ctx, specs, 'gen')
+    ctx.log('comparison inside Coq done')
     ctx.coverage['evaluations'] = sum(i['ncalls'] for i in infos)
     distinct = {json.dumps([s['cols'], s['rows'], s['index'], s['kind']]) for s in kept if len(s['rows']) >= 2}
     ctx.coverage['distinct_nontrivial'] = len(distinct)
@@ -528,6 +653,9 @@ def run(ctx):
 
 def replay(ctx, rep):
     spec = rep.get('spec', rep)
+    if 'cols' not in spec:
+        print('this replay file records a broken obligation without a failing input:', json.dumps(rep)[:2000])
+        return 1
     kept, verdicts, infos, _ = run_specs(ctx, [spec], 'replay', quiet=True)
     tags = verdicts[0]
     print('spec', json.dumps(spec))
